@@ -289,7 +289,6 @@ class Symex:
         self._modconst = {}
         self.fresh_n = 0
         self.on_start = None
-        self.oracle = None          # callable(sx, atom) -> bool | None: decides atoms over the scenario's value domain
 
     # ------------------------------------------------------------------ driving
     def run(self, ref, make_args, self_obj=None):
